@@ -2,6 +2,7 @@ pub mod c15;
 pub mod c19;
 pub mod c20;
 pub mod corridor;
+pub mod dispatch;
 pub mod path_geometry;
 pub mod powertrain;
 pub mod slts;
@@ -16,6 +17,8 @@ pub fn registry() -> Vec<&'static dyn Property> {
         &powertrain::C01,
         &speed_profile::C02,
         &slts::C03,
+        &dispatch::C04,
+        &dispatch::C05,
         &path_geometry::C06,
         &train_props::C07,
         &powertrain::C08,
